@@ -1,4 +1,5 @@
 """C15 - comments are transparent; annotations stick to the next option."""
+import re
 from .. import sym, lexmodel, parsermodel as pm, report
 from . import c02
 
@@ -185,59 +186,48 @@ def attach_function(c, chk):
 
 
 def printer_emits(c, chk):
+    """the per-option printer writes the annotation first, indented like the option, and unchanged"""
+    from .. import outmodel
     fn = c.need('cfg_opt_print_pff_indent')
-    hit = None
-    opener = None
-    for call in fn.calls('fprintf'):
-        s = c.string_arg(call, 1)
-        if s and '/*' in s and '%s' in s and '*/' in s:
-            hit = call
-        elif s and '/*' in s:
-            opener = call
-    if hit is None and opener is not None:
-        # written piecewise: the stored text must go out unchanged - nothing else may be written
-        # between the opener and the closer except the characters of opt->comment
-        ex = sym.Explorer(c.modules, max_visits=3, mod_sets=c.mod_sets, max_paths=50000)
-        altered = None
-        seen_any = False
-        for p in ex.explore(fn):
-            if p.end != 'ret':
-                continue
-            ev = [e for e in p.events if e.kind == 'call' and e.name in ('fprintf', 'fputc', 'fputs', 'putc', 'cfg_indent', 'fwrite')]
-            idx = [i for i, e in enumerate(ev) if e.ins is opener]
-            if not idx:
-                continue
-            seen_any = True
-            for e in ev[idx[0] + 1:]:
-                txt = e.args[1][1] if e.name == 'fprintf' and len(e.args) > 1 and e.args[1][0] == 'str' else None
-                if txt is not None and '*/' in txt:
-                    break
-                from_comment = any(sym.mentions(a, lambda v: v[0] == 'fld' and v[3] == 'comment') for a in e.args)
-                if not from_comment:
-                    altered = e
-                    break
-            if altered is not None:
-                break
-        if not seen_any:
-            chk.fail('R15.4', 'printer-no-annotation', c.where(fn), 'the per-option printer never writes the annotation')
-        elif altered is not None:
-            chk.fail('R15.4', 'printer-alters-annotation', c.where(altered.ins),
-                     'while writing the annotation the printer inserts other output (%s) into the comment text: the annotation does not read back as it was' % altered.name)
-        else:
-            chk.ok('R15.4', 'printer', 'annotation written piecewise between "/*" and "*/", only bytes of opt->comment in between')
-        return
-    if hit is None:
+    ex = sym.Explorer(c.modules, max_visits=3, mod_sets=c.mod_sets, max_paths=200000)
+    marks = ('cfg_indent', 'cfg_print_quoted', 'cfg_print_pff_indent', 'cfg_opt_nprint_var', 'indirect:')
+    seen = 0
+    for p in ex.explore(fn):
+        if p.end != 'ret':
+            continue
+        toks = outmodel.tokens(p.events, calls=marks)
+        text, index = outmodel.render(toks)
+        a = text.find('/*')
+        if a < 0:
+            continue
+        b = text.find('*/', a + 2)
+        if b < 0:
+            chk.fail('R15.4', 'printer-unterminated', c.where(toks[index[a]][-1].ins), 'the annotation is opened with "/*" but never closed on this path')
+            return
+        seen += 1
+        inner = [toks[k] for k in sorted(set(index[a + 2:b]))]
+        body = text[a + 2:b]
+        args = [t for t in inner if t[0] == 'arg']
+        other = [t for t in inner if t[0] == 'call']
+        from_comment = args and all(sym.mentions(t[2], lambda v: v[0] == 'fld' and v[3] == 'comment') for t in args)
+        if other or not from_comment or not re.match(r'^ ?(%s|%c)+ ?$', body):
+            t = (other or [x for x in inner if x[0] == 'lit'] or inner)[0]
+            chk.fail('R15.4', 'printer-alters-annotation', c.where(t[-1].ins),
+                     'between "/*" and "*/" the printer writes %r: something other than the stored annotation goes into the comment, so it does not read back as it was' % body)
+            return
+        head = text[:a]
+        if head != '\x00cfg_indent\x00':
+            if head == '':
+                chk.fail('R15.4', 'printer-indent', c.where(toks[index[a]][-1].ins), 'the annotation is not indented like its option')
+            else:
+                chk.fail('R15.4', 'printer-order', c.where(toks[index[a]][-1].ins), 'the annotation is not the first thing written for an option (%r comes first)' % head.replace('\x00', '|'))
+            return
+        ind = toks[0][2]
+        if ind.args[1] != ('p', 'indent'):
+            chk.fail('R15.4', 'printer-indent', c.where(ind.ins), 'the annotation is indented by %s instead of the current depth' % sym.render(ind.args[1]))
+            return
+    if not seen:
         chk.fail('R15.4', 'printer-no-annotation', c.where(fn), 'the per-option printer never writes the annotation')
         return
-    # it must come before anything else is printed for the option: dominated only by the guards
-    firsts = [x for x in fn.calls() if x.callee_name() in ('fprintf', 'cfg_indent', 'cfg_print_pff_indent', 'cfg_opt_nprint_var')]
-    firsts.sort(key=lambda i: (i.line or 0, i.idx))
-    first_out = next((x for x in firsts if x.callee_name() == 'fprintf'), None)
-    if first_out is not hit:
-        chk.fail('R15.4', 'printer-order', c.where(hit), 'the annotation is not the first thing written for an option')
-    else:
-        ind = [x for x in fn.calls('cfg_indent') if x.block is hit.block and x.idx < hit.idx]
-        if ind:
-            chk.ok('R15.4', 'printer', 'annotation written first, after cfg_indent(fp, indent), under the CFGF_COMMENTS && comment test')
-        else:
-            chk.fail('R15.4', 'printer-indent', c.where(hit), 'the annotation is not indented like its option')
+    chk.ok('R15.4', 'printer', 'on all %d paths that write it the annotation comes first, after cfg_indent(fp, indent), as "/*" + the stored text + "*/"' % seen)
+
